@@ -63,6 +63,10 @@ c.twin("reduce/unwrapped-unless-keep-wrapper", "result[0] is loads")
 c = M.contract("CloudpickledObjectWrapper.__getattr__", props=["C16"])
 c.param("self", T.Ref("CloudpickledObjectWrapper")).param("attr", T.Str)
 c.ensures("forward/attribute-reads-go-to-the-object", "implies(attr != '_obj' and attr != '_keep_wrapper', result is dynattr(self._obj, attr))")
+# the wrapper has an attribute iff its object has it: a read of an attribute the object lacks raises AttributeError (hasattr / duck typing see the object)
+c.ensures("forward/only-attributes-the-object-has-are-returned", "implies(attr != '_obj' and attr != '_keep_wrapper', has_dynattr(self._obj, attr))")
+c.raises("forward/a-missing-attribute-raises-attribute-error", "AttributeError",
+         post="implies(attr != '_obj' and attr != '_keep_wrapper', not has_dynattr(self._obj, attr))")
 c.modifies()
 c.assumes("A-user")
 
